@@ -1,2 +1,31 @@
 def q(quick, thorough):
     return {"quick": quick, "thorough": thorough}
+
+
+# ---- spreading child processes over the CPUs
+# In this VM the kernel's load balancer sometimes stops migrating runnable processes: every child then stays on the CPU
+# its parent ran on and sixteen workers share one core. Each child is therefore first moved to its own CPU (round robin
+# over the allowed set) and then given the full mask back, so a working balancer remains free to move it.
+import itertools as _it
+import os as _os
+_spread_counter = _it.count()
+
+
+def spread_preexec(inner=None):
+    try:
+        allowed = sorted(_os.sched_getaffinity(0))
+    except (AttributeError, OSError):
+        return inner
+    if len(allowed) < 2:
+        return inner
+    k = allowed[next(_spread_counter) % len(allowed)]
+
+    def f():
+        try:
+            _os.sched_setaffinity(0, {k})
+            _os.sched_setaffinity(0, set(allowed))
+        except OSError:
+            pass
+        if inner:
+            inner()
+    return f
